@@ -69,6 +69,8 @@ var errScripted = errors.New("scripted failure")
 type scriptedRT struct {
 	mu sync.Mutex
 	fn func() (string, error)
+	// etagFor: the ETag header of a response whose body is v (default: the quoted body)
+	etagFor func(req *http.Request, v string) string
 }
 
 func (rt *scriptedRT) RoundTrip(req *http.Request) (*http.Response, error) {
@@ -80,7 +82,11 @@ func (rt *scriptedRT) RoundTrip(req *http.Request) (*http.Response, error) {
 		return nil, err
 	}
 	h := http.Header{}
-	h.Set("ETag", `"`+v+`"`)
+	if rt.etagFor != nil {
+		h["Etag"] = []string{rt.etagFor(req, v)}
+	} else {
+		h.Set("ETag", `"`+v+`"`)
+	}
 	return &http.Response{StatusCode: 200, Header: h, Body: io.NopCloser(strings.NewReader(v)), ContentLength: int64(len(v)), Request: req}, nil
 }
 
@@ -175,6 +181,34 @@ func flightObjects(base string) []flightObj {
 			return string(b), err
 		}})
 	}
+	// cacheTransport.get for DIFFERENT index URLs (several repositories behind one shared Cache) whose HEADs reported the
+	// SAME etag value and whose GET responses carry the same ETag (identical strings; and a weak/strong pair of one
+	// value): the body each URL's caller gets must be the one fetched for THAT URL
+	for _, weak := range []bool{false, true} {
+		weak := weak
+		rt := &scriptedRT{etagFor: func(req *http.Request, v string) string {
+			if weak && strings.Contains(req.URL.Path, "/b/") {
+				return `W/"one-etag-for-every-index"`
+			}
+			return `"one-etag-for-every-index"`
+		}}
+		dir := filepath.Join(base, fmt.Sprintf("inproc-get-same-etag-%v", weak))
+		cl := apk.VerifC19CacheClient(dir, false, apk.NewCache(true), &http.Client{Transport: rt}, true)
+		objs = append(objs, flightObj{name: "FGet", onDisk: true, call: func(key string, fn func() (string, error)) (string, error) {
+			rt.mu.Lock()
+			rt.fn = fn
+			rt.mu.Unlock()
+			req, _ := http.NewRequest(http.MethodGet, "http://origin.invalid/"+key+"/x86_64/APKINDEX.tar.gz", nil)
+			req.Header.Set("I-Cant-Believe-Its-Not-If-None-Match", base32.StdEncoding.EncodeToString([]byte("one-etag-for-every-index")))
+			resp, err := cl.Do(req)
+			if err != nil {
+				return "", err
+			}
+			defer resp.Body.Close()
+			b, err := io.ReadAll(resp.Body)
+			return string(b), err
+		}})
+	}
 	return objs
 }
 
@@ -222,7 +256,7 @@ func (d *driver) stageFlights() {
 		{},
 	}
 	round := 0
-	for _, mkObj := range []int{0, 1, 2, 3, 4, 5} {
+	for _, mkObj := range []int{0, 1, 2, 3, 4, 5, 6, 7} {
 		var scripts [][]scripted
 		scripts = append(scripts, corpus...)
 		for i := 0; i < nrand; i++ {
@@ -270,7 +304,7 @@ func (d *driver) stageFlights() {
 		}
 	}
 	// concurrent callers (of one key, and of two keys at the same time) while the leaders' executions are held
-	for _, mkObj := range []int{0, 1, 2, 4} {
+	for _, mkObj := range []int{0, 1, 2, 4, 5, 6, 7} {
 		ns := []int{2, 5}
 		if d.tier == "thorough" {
 			ns = []int{1, 2, 3, 5, 9, 17}
@@ -618,4 +652,88 @@ func (d *driver) stageOfflineFixtures() {
 		}
 		os.RemoveAll(root)
 	}
+}
+
+// ---- file names of cached revisions ---------------------------------------------------------
+
+// stageEtagNames: the real etagFromResponse + cacheFileFromEtag on sets of ETags of many shapes for one cache
+// file: short ones, 100–300 bytes differing only in their tail / middle / head, characters that base32 expands,
+// weak validators, one being a prefix of another. Two different ETags must never get one file name.
+func (d *driver) stageEtagNames() {
+	long := func(n int, tail string) string {
+		p := strings.Repeat("storage.example.invalid/bucket/object-", 10)
+		if n > len(p) {
+			n = len(p)
+		}
+		return p[:n] + tail
+	}
+	sets := [][]string{
+		{"a", "b", "ab", "a ", "A"},
+		{long(100, "#1"), long(100, "#2"), long(100, ""), long(100, "#10")},
+		{long(79, "x"), long(79, "y"), long(80, "x"), long(80, "y"), long(81, "x"), long(81, "y")},
+		{long(127, "1"), long(127, "2"), long(128, "1"), long(128, "2"), long(200, "1"), long(200, "2")},
+		{long(300, "#generation-1700000000000000001"), long(300, "#generation-1700000000000000002")},
+		{"1" + long(150, ""), "2" + long(150, "")},
+		{long(60, "") + "M" + long(60, ""), long(60, "") + "N" + long(60, "")},
+		{`W/"weak`, "weak", `W/weak`, "é/+ =?&", "é/+ =?", "/../x", "..", "."},
+	}
+	nrand := 4
+	if d.tier == "thorough" {
+		nrand = 60
+	}
+	for i := 0; i < nrand; i++ {
+		base := long(d.rnd.Intn(260), "")
+		var set []string
+		for j := 0; j < 2+d.rnd.Intn(4); j++ {
+			set = append(set, base+fmt.Sprintf("%c%d", 'a'+d.rnd.Intn(3), d.rnd.Intn(3)))
+		}
+		sets = append(sets, set)
+	}
+	for si, set := range sets {
+		for _, index := range []bool{true, false} {
+			u := "http://origin.invalid/repo/x86_64/APKINDEX.tar.gz"
+			if !index {
+				u = "http://origin.invalid/repo/keys/k.rsa.pub"
+			}
+			uu, _ := url.Parse(u)
+			cf, err := apk.VerifCachePathFromURL(filepath.Join(d.w.root, "names"), *uu)
+			if err != nil {
+				continue
+			}
+			seen := map[string]bool{}
+			var items []string
+			var shown []string
+			for _, raw := range set {
+				if seen[raw] {
+					continue
+				}
+				seen[raw] = true
+				resp := &http.Response{Header: http.Header{"Etag": []string{`"` + raw + `"`}}}
+				enc, ok := apk.VerifEtagFromResponse(resp)
+				if !ok {
+					continue
+				}
+				p, err := apk.VerifCacheFileFromEtag(cf, enc)
+				if err != nil {
+					continue // refused (containment): C18's subject
+				}
+				trimmed := strings.Trim(raw, `"`)
+				items = append(items, fmt.Sprintf("{| en_raw := %s; en_enc := %s; en_base := %s |}", gal.Str(trimmed), gal.Str(enc), gal.Str(filepath.Base(p))))
+				shown = append(shown, fmt.Sprintf("%d bytes …%s -> %d chars", len(trimmed), tailOf(trimmed, 12), len(filepath.Base(p))))
+			}
+			d.out.Add(gal.Case{
+				Term:  fmt.Sprintf("(CNames {| nc_index := %s; nc_items := %s |})", gal.Bool(index), gal.List(items)),
+				Desc:  map[string]any{"exp": "etag-names", "set": si, "index": index, "etags": shown},
+				Class: "etag-names",
+				Key:   fmt.Sprintf("names/%d/%v/%v", si, index, set),
+			})
+		}
+	}
+}
+
+func tailOf(s string, n int) string {
+	if len(s) <= n {
+		return s
+	}
+	return s[len(s)-n:]
 }
